@@ -23,7 +23,7 @@ build_driver() {
 
 needs_build() {
 	[ -x "$BIN" ] || return 0
-	[ -n "$(find "$VERIF_DIR/sim/cmd" "$VERIF_DIR/sim/proto" "$VERIF_DIR/sim/go.mod" -newer "$BIN" 2>/dev/null | head -1)" ]
+	[ -n "$(find "$VERIF_DIR/sim/cmd" "$VERIF_DIR/sim/proto" "$VERIF_DIR/sim/autoyield" "$VERIF_DIR/sim/go.mod" -newer "$BIN" 2>/dev/null | head -1)" ]
 }
 
 case "${1:-}" in
